@@ -335,6 +335,33 @@ fn build(case: &Value) -> (String, Expectation) {
                     }
                 }
             }
+            "reassign" | "block_reassign" => {
+                // the variable gets a brand-new builder: nothing configured so far may survive.
+                // block_reassign does it inside a nested block (another basic block for the analysis)
+                let program = st["program"].as_str().unwrap();
+                let lit = val_lit(&json!(program), computed);
+                if st["s"] == "reassign" {
+                    src += &format!("{} get command({lit})\n", recv(var));
+                } else {
+                    src += &format!("if to say (1 na 1) start\n    {} get command({lit})\nend\n", recv(var));
+                }
+                if live && model.contains_key(&var) {
+                    model.insert(var, Cmd { program: program.to_string(), ..Cmd::default() });
+                }
+            }
+            "maybe_reset" => {
+                // a helper that would replace the captured builder, but its condition is false
+                src += &format!(
+                    "do m{fi}(flag) start\n    if to say (flag) start\n        {} get command(\"never\")\n    end\n    return 0\nend\nmake q{fi} get m{fi}(false)\n",
+                    recv(var)
+                );
+                fi += 1;
+            }
+            "self_assign" => {
+                // `c get k()` where k reads the captured c: the old value is read before it is replaced
+                src += &format!("do k{fi}() start\n    return {r}\nend\n{r} get k{fi}()\n", r = recv(var));
+                fi += 1;
+            }
             "cap_func" | "shadow_func" => {
                 // a helper that works on the builder it captures from the enclosing scope; nobody reads
                 // what it returns. shadow_func calls it from a function that has a local of the same name
@@ -492,6 +519,15 @@ impl Engine for C15 {
                 10 | 11 => steps.push(json!({"s": "loop_op", "var": var, "op": gen_op(&mut r), "n": r.range(1, 3), "computed": computed})),
                 12 | 13 => steps.push(json!({"s": "via_func", "var": var, "op": gen_op(&mut r), "computed": computed})),
                 14 => steps.push(json!({"s": r.pick(&["touch_func", "cap_func", "shadow_func"]), "var": var, "op": gen_op(&mut r), "computed": computed})),
+                18 if var >= slots => {
+                    // replace the builder, then (usually) something that only looks like another write
+                    steps.push(json!({"s": r.pick(&["reassign", "reassign", "block_reassign"]), "var": var, "program": program(&mut r), "computed": computed}));
+                    match r.below(4) {
+                        0 => {}
+                        1 | 2 => steps.push(json!({"s": "maybe_reset", "var": var})),
+                        _ => steps.push(json!({"s": "self_assign", "var": var})),
+                    }
+                }
                 15 | 16 => {
                     // copy into a variable not made yet (plain vars) or any slot
                     let candidates: Vec<usize> = (0..nvars).filter(|v| *v < slots || !made.contains(v)).collect();
